@@ -4,6 +4,7 @@ from . import rules_reader as RD
 from . import rules_buffer as B
 from . import rules_conserve as CV
 from . import rules_struct as S
+from . import rules_roles as RO
 
 PROPS = {}
 
@@ -120,3 +121,35 @@ prop('C09',
      'the branch; R09.e a group closes only on its own kind; R09.f/R12.d delimiters are own tokens and brackets are '
      'structural only in argument position.',
      'maximality of the argument run and the effect of detaching separators (value-level).')
+
+
+prop('C07',
+     [RO.r07_a, RO.r07_b, CV.r08_a],
+     'Role inference by data flow from the public entry point (which parameters carry the tolerance option), a '
+     'threading rule on every resolved call edge, must-flow along the recursion through environments, brace and '
+     'bracket arguments, and a non-interference rule: every condition that mentions the option is evaluated for '
+     'tolerance 0 and 1 over all truth assignments of its other atoms.',
+     'R07.a tolerance is used only as a call argument and in conditions whose strict side raises on every path -- so '
+     'wherever strict parsing succeeds tolerant parsing takes the identical path (first sentence of C07, at the level '
+     'of control flow, for every input); R07.b the option is forwarded on every edge and reaches both error tests; '
+     'R07.c the tolerant continuation consumes nothing; R08.a tolerant paths conserve tokens.',
+     'which inputs strict mode rejects; the shape of the repaired output.')
+
+prop('C11',
+     [RO.r11_a, RO.r11_b, RO.r11_c, RO.r11_d, CV.r01_a, CV.r08_b],
+     'Call-graph reachability from the raw reader, role inference and threading for the skip list, a dominance rule '
+     'on the decision to read raw, def-use of the raw scan result, and the shape of the conditional scan.',
+     'R11.a the raw reader reaches no parsing function; R11.b built-in and user names are one set and the decision is '
+     'one membership test with a normally-parsing else branch; R11.c the skip list reaches nested environments; R11.d '
+     'left-to-right first-match scan for the node\'s own closer; R01.a the body is stored raw and whole; R08.b the '
+     'closer is discarded only under its guard.',
+     'the body-dependent preconditions of the statement (runtime).')
+
+prop('C02',
+     [RO.r02_a, RO.r02_b, S.r12_d, S.r09_e],
+     'Role inference and threading for the reading mode, must-flow of the definition mode from the command reader to '
+     'the dispatcher\'s \\begin test, and def-use rules on the item reader and the group reader.',
+     'R02.a the mode is forwarded on every edge and the definition mode reaches the \\begin test through brace and '
+     'bracket arguments; R02.b an item body stops without consuming at \\item, \\end and a closing brace; R12.d / '
+     'R09.e groups open only on a brace outside argument position and close only on their own kind.',
+     'everything value-level: names, nesting and argument contents exactly as written.')
